@@ -480,6 +480,8 @@ class DataPath:
                 and is_single_cond
                 and isinstance(part.condition, cnds.Key)
                 and part.condition.callable.name == "equal_to"
+                # a lone str/float is what `DataPath` converts to a `MapValue`:
+                and isinstance(part.condition.callable.kwargs["value"], (str, float))
             ):
                 out.append(part.condition.callable.kwargs["value"])
             elif (
@@ -491,6 +493,12 @@ class DataPath:
                 and isinstance(part.map_condition, cnds.Key)
                 and not part.map_condition.flatten()[1]
                 and part.map_condition.callable.name == "equal_to"
+                # a lone int is converted to a `MapOrListValue` with that key and index:
+                and isinstance(part.list_condition.callable.kwargs["value"], int)
+                and type(part.list_condition.callable.kwargs["value"])
+                is type(part.map_condition.callable.kwargs["value"])
+                and part.list_condition.callable.kwargs["value"]
+                == part.map_condition.callable.kwargs["value"]
             ):
                 out.append(part.list_condition.callable.kwargs["value"])
             else:
